@@ -13,12 +13,12 @@ import (
 type Expr interface{}
 
 type (
-	EIdent  struct{ Name string }
-	EInt    struct{ Val *big.Int }
-	EStr    struct{ Val string }
-	EBool   struct{ Val bool }
-	ENil    struct{}
-	EUnary  struct {
+	EIdent struct{ Name string }
+	EInt   struct{ Val *big.Int }
+	EStr   struct{ Val string }
+	EBool  struct{ Val bool }
+	ENil   struct{}
+	EUnary struct {
 		Op string
 		X  Expr
 	}
@@ -44,8 +44,8 @@ type (
 		Body   Expr
 		Pats   []Expr
 	}
-	EOld    struct{ X Expr }
-	EIs     struct {
+	EOld struct{ X Expr }
+	EIs  struct {
 		X    Expr
 		Type string
 	}
@@ -473,13 +473,13 @@ type Contract struct {
 }
 
 type SpecFunc struct {
-	Name    string
-	Params  []Param
-	Result  string
-	Body    Expr // nil: uninterpreted
-	Text    string
-	File    string
-	Line    int
+	Name   string
+	Params []Param
+	Result string
+	Body   Expr // nil: uninterpreted
+	Text   string
+	File   string
+	Line   int
 }
 
 type Axiom struct {
@@ -491,12 +491,12 @@ type Axiom struct {
 }
 
 type Lemma struct {
-	Name     string
-	Params   []Param
-	Clauses  []*Clause
-	Props    []string
-	File     string
-	Line     int
+	Name    string
+	Params  []Param
+	Clauses []*Clause
+	Props   []string
+	File    string
+	Line    int
 }
 
 type SpecSet struct {
